@@ -19,7 +19,7 @@
   withdrawn, slashed, scheduled and unlocked; they are written by the model and never read by it.
 
   Clauses and status (model of /repo as repaired by 9ac9bcb, 626f990, df2e1ab, 92417eb, d8b47b0, acb5e5c,
-  ebb3d1d, 7abde80)
+  ebb3d1d, 7abde80, d2f2af2)
     1. frozen guard ............................. full strength for the named validator
                                                   (`frozen_blocks_all_three`) and for the stake
                                                   account of any frozen validator, whatever validator
@@ -66,7 +66,9 @@ theorem frozen_blocks_all_three (s : St) (v d : Addr) (a : Int) (hf : s.frozen v
     · exact h
     · rw [hf] at hf'; simp at hf'
 
-/-- a pending allegation request (one that `CheckRequestExists` can see) blocks unstaking -/
+/-- a pending allegation request blocks unstaking — since d2f2af2 also a request opened earlier
+    in the same block (`CheckRequestExists` sees the pending keys of the block: `Tx.allege` takes
+    effect at once) -/
 theorem pending_allegation_blocks_unstake (s : St) (v d : Addr) (a : Int) (hr : s.req v = true) :
     (stepTx s (.unstake v d a)).1 = s ∧ (stepTx s (.unstake v d a)).2 ≠ .ok := by
   rcases txUnstake_cases s v d a with h | ⟨r, _, _, _, _, _, hr', _⟩
